@@ -494,6 +494,8 @@ func TestReplay(t *testing.T) {
 		var c Case
 		json.Unmarshal(r.Case, &c)
 		v = Replay(&c, r.Property)
+	case "table":
+		v = replayTable(r.Case)
 	case "between":
 		var c betweenCase
 		json.Unmarshal(r.Case, &c)
